@@ -145,9 +145,68 @@ func (ex *Exec) canon(t *Term) *Term {
 	return ex.simpKnown(ex.subst(t))
 }
 
+// plainRe is the regular expression behind verifrt.StrPlain: non-empty words of lower-case letters.
+const plainRe = "(re.+ (re.range \"a\" \"z\"))"
+
+// lettersOnly: every character t can contain is a lower-case letter or comes from one of its constant atoms.
+// cannotContain: sub has a character that is no letter and occurs in no constant atom of t.
+func (ex *Exec) cannotContain(t *Term, sub string) bool {
+	if sub == "" {
+		return false
+	}
+	consts := ""
+	for _, a := range catAtoms(t) {
+		switch {
+		case a.Op == "cs":
+			consts += a.S
+		case a.Op == "var" && ex.plainVars[a]:
+		case a.Op == "uf" && a.Name == "H": // 64 hexadecimal digits
+			consts += "0123456789abcdef"
+		default:
+			return false
+		}
+	}
+	for _, c := range sub {
+		if (c < 'a' || c > 'z') && !strings.ContainsRune(consts, c) {
+			return true
+		}
+	}
+	return false
+}
+
 func (ex *Exec) simpKnown(t *Term) *Term {
 	if v, ok := ex.known[t]; ok {
 		return mkBool(v)
+	}
+	if len(ex.plainVars) > 0 {
+		switch t.Op {
+		case "str.contains":
+			if t.Args[1].Op == "cs" && ex.cannotContain(t.Args[0], t.Args[1].S) {
+				return tFalse
+			}
+		case "str.prefixof", "str.suffixof":
+			if t.Args[0].Op == "cs" && ex.cannotContain(t.Args[1], t.Args[0].S) {
+				return tFalse
+			}
+			// a one-character prefix / suffix test against a term whose end is a plain variable
+			if t.Args[0].Op == "cs" && len(t.Args[0].S) == 1 {
+				at := catAtoms(t.Args[1])
+				end := at[0]
+				if t.Op == "str.suffixof" {
+					end = at[len(at)-1]
+				}
+				c := t.Args[0].S[0]
+				if end.Op == "var" && ex.plainVars[end] && (c < 'a' || c > 'z') {
+					return tFalse
+				}
+				if end.Op == "cs" && end.S != "" {
+					if t.Op == "str.prefixof" {
+						return mkBool(end.S[0] == c)
+					}
+					return mkBool(end.S[len(end.S)-1] == c)
+				}
+			}
+		}
 	}
 	switch t.Op {
 	case "not":
@@ -191,6 +250,12 @@ func (ex *Exec) addFact(c *Term) bool {
 	}
 	if v, ok := ex.known[c]; ok {
 		return v
+	}
+	if c.Op == "str.in_re" && c.Args[0].Op == "var" && c.Args[1].Op == "raw" && c.Args[1].Name == plainRe {
+		if ex.plainVars == nil {
+			ex.plainVars = map[*Term]bool{}
+		}
+		ex.plainVars[c.Args[0]] = true
 	}
 	ex.known[c] = true
 	ex.known[mkNot(c)] = false
@@ -527,4 +592,83 @@ func asciiUpper(s string) string {
 		}
 	}
 	return string(b)
+}
+
+// ---------------------------------------------------------------- positions inside concatenations
+
+// lenSum is the canonical term for the total length of atoms.
+func lenSum(atoms []*Term) *Term {
+	var t *Term = mkInt(0)
+	c := int64(0)
+	for _, a := range atoms {
+		if a.Op == "cs" {
+			c += int64(len(a.S))
+			continue
+		}
+		if t.Op == "ci" && t.I == 0 {
+			t = mkStrLen(a)
+		} else {
+			t = mkArith("+", t, mkStrLen(a))
+		}
+	}
+	return mkArith("+", t, mkInt(c))
+}
+
+// splitAt cuts the concatenation t at position idx when idx is syntactically an atom boundary plus an offset into a
+// constant atom. ok=false when the position cannot be located syntactically.
+func splitAt(t *Term, idx *Term) (left, right *Term, ok bool) {
+	atoms := catAtoms(t)
+	for k := 0; k <= len(atoms); k++ {
+		base := lenSum(atoms[:k])
+		if base == idx {
+			return mkConcat(atoms[:k]...), mkConcat(atoms[k:]...), true
+		}
+		if k < len(atoms) && atoms[k].Op == "cs" {
+			for o := 1; o < len(atoms[k].S); o++ {
+				// offset o into the constant atom k: the constant's first o bytes belong to the left part
+				l := append(append([]*Term{}, atoms[:k]...), mkStr(atoms[k].S[:o]))
+				if lenSum(l) == idx {
+					r := append([]*Term{mkStr(atoms[k].S[o:])}, atoms[k+1:]...)
+					return mkConcat(l...), mkConcat(r...), true
+				}
+			}
+		}
+	}
+	return nil, nil, false
+}
+
+// trimmedEnds: t can neither start nor end with a character of cut (plain variables are letters only).
+func (ex *Exec) trimmedEnds(t *Term, cut string, left, right bool) bool {
+	atoms := catAtoms(t)
+	if len(atoms) == 0 {
+		return true
+	}
+	okEnd := func(a *Term, first bool) bool {
+		switch {
+		case a.Op == "cs":
+			if a.S == "" {
+				return false
+			}
+			c := a.S[len(a.S)-1]
+			if first {
+				c = a.S[0]
+			}
+			return !strings.ContainsRune(cut, rune(c))
+		case a.Op == "var" && ex.plainVars[a]:
+			for _, c := range cut {
+				if c >= 'a' && c <= 'z' {
+					return false
+				}
+			}
+			return true
+		}
+		return false
+	}
+	if left && !okEnd(atoms[0], true) {
+		return false
+	}
+	if right && !okEnd(atoms[len(atoms)-1], false) {
+		return false
+	}
+	return true
 }
